@@ -12,7 +12,11 @@ RULE = ('(seq) random trees of nested config_scope entries (identifier, a/b, lis
         'depth (Exception and BaseException subclasses), caught at a chosen outer level; a scope-stack model is compared at every step '
         'and after every exit; thorough adds all chains of depth<=3 over a 9-kind entry alphabet x {return, raise caught at every level}. '
         '(threads) 2-4 threads each running its own program under the cooperative scheduler (random/PCT/single-preemption) and '
-        'free-running; a child thread started inside a scope must start at []. distinct = program shapes / schedule traces')
+        'free-running; a child thread started inside a scope must start at []. (extensions, sequential) bodies raising builtin '
+        'ValueError/TypeError/IndexError; dotted scope components; threads started by the running thread inside nested blocks; '
+        'clear_config/parse_config/bind/query/config_str/unlock_config inside blocks; lists returned by current_scope() mutated; '
+        'generators suspended inside a block and left by close()/throw()/exhaustion; scoped classes (get_configurable, reference) and their '
+        'registered methods called later under another scope. distinct = program shapes / schedule traces')
 TIERS = {
     'quick': {'workers': 8, 'cases': 400, 'timeout': 900, 'thread_cases': 6, 'random_runs': 20, 'pct_runs': 9, 'preempt_samples': 40,
               'free_runs': 5, 'exhaustive': False},
@@ -24,12 +28,30 @@ ONLINE = {'which': ['scope'], 'foreign': ['C01', 'C04', 'C05', 'C07', 'C10', 'C1
 REQUIRED_BUCKETS = ['entry:ident', 'entry:slash', 'entry:list', 'entry:none', 'entry:empty', 'entry:invalid-name', 'entry:invalid-type',
                     'entry:invalid-list', 'exit:return', 'exit:raise-Exception', 'exit:raise-BaseException', 'depth:4+',
                     'call:direct', 'call:scoped-get', 'call:scoped-get-with-suffix-of-active-scope', 'call:scoped-ref', 'call:probe-raises-in-scoped', 'call:probe-raises-BaseException-in-scoped', 'entry:deferred', 'entry:decorator', 'threads:shared-scoped-callable', 'threads:scheduled',
-                    'threads:free', 'threads:child-in-scope', 'threads:scoped-binding-seen', 'policy:random', 'policy:pct', 'policy:preempt']
+                    'threads:free', 'threads:child-in-scope', 'threads:scoped-binding-seen', 'policy:random', 'policy:pct', 'policy:preempt',
+                    # extensions (audit gaps 1-7)
+                    'threads:child-of-running-thread-in-scope', 'threads:child-of-running-thread-in-nested-blocks',
+                    'api:clear-config-in-block', 'api:misc-in-block', 'observe:returned-scope-list-mutated',
+                    'exit:raise-ValueError', 'exit:raise-TypeError', 'exit:raise-IndexError', 'call:probe-raises-ValueError-in-scoped',
+                    'entry:dotted', 'entry:invalid-dotted', 'gen:close', 'gen:throw', 'gen:exhaust', 'gen:suspended-in-nested-block',
+                    'call:scoped-class', 'call:scoped-class-method-under-other-scope', 'call:unscoped-class-method',
+                    'call:scoped-method-raises']
 ORACLE_COUNTERS = ['oracle_evals', 'scope_checks', 'thread_scope_checks']
 ASSUMPTIONS = ['interleaving granularity = LINE events inside gin/*.py']
 
 _S = {}
-KINDS = ['a', 'b', 'a/b', 'b/c/a', ['x'], ['x', 'y'], [], None, '', 'a b', 'a//b', '/a', 'a/', 5, ['x y'], ['ok', ''], ('t',), 1.5]
+KINDS = ['a', 'b', 'a/b', 'b/c/a', ['x'], ['x', 'y'], [], None, '', 'a b', 'a//b', '/a', 'a/', 5, ['x y'], ['ok', ''], ('t',), 1.5,
+         # dotted components are valid module-like names; malformed dots are not
+         'exp.v1', 'a.b/c', ['m.n', 'x'], 'a..b', ['.a']]
+# call kinds of the first version / of the extension wave; SEQ_ONLY kinds start threads, change the global configuration or build
+# classes (many LINE events): thread programs run them as a plain direct call
+OLD_CALLS = ['direct', 'scoped-get', 'scoped-ref', 'scoped-raise', 'scoped-get-raise', 'scoped-raise-base', 'scoped-get-raise-base',
+             'deferred-entry', 'decorator-entry']
+NEW_CALLS = ['child-thread', 'child-thread', 'api-clear', 'api-misc', 'scoped-raise-value', 'scoped-get-raise-value', 'gen-close', 'gen-throw',
+             'gen-exhaust', 'scoped-class', 'scoped-class', 'unscoped-class', 'scoped-method-raises']
+SEQ_ONLY = {'child-thread', 'api-clear', 'api-misc', 'scoped-class', 'unscoped-class', 'scoped-method-raises'}
+NEW_ONLY = {'child-thread', 'api-clear', 'api-misc', 'gen-close', 'gen-throw', 'gen-exhaust', 'scoped-class', 'unscoped-class',
+            'scoped-method-raises'}      # dispatched to Runner.call_<first word>
 
 
 class Boom(Exception):
@@ -38,6 +60,22 @@ class Boom(Exception):
 
 class BaseBoom(BaseException):
   pass
+
+
+BODY_EXC = {'Boom': Boom, 'BaseBoom': BaseBoom, 'KeyboardInterrupt': KeyboardInterrupt, 'ValueError': ValueError, 'TypeError': TypeError,
+            'IndexError': IndexError}
+BODY_EXC_CLASSES = tuple(BODY_EXC.values())
+
+
+def body_exc(kind, text):
+  """An exception raised by the harness itself (block body / probe), told apart from gin's own by a mark on the instance."""
+  e = BODY_EXC[kind](text)
+  e.c9_body = True
+  return e
+
+
+def is_body_exc(e):
+  return isinstance(e, BODY_EXC_CLASSES) and getattr(e, 'c9_body', False)
 
 
 def setup(ctx):
@@ -49,7 +87,7 @@ def setup(ctx):
   @gin.configurable('c9raiser', module='c9')
   def raiser(kind='Boom'):
     probes.RECORDER.rec('raiser', {})
-    raise {'Boom': Boom, 'BaseBoom': BaseBoom, 'KeyboardInterrupt': KeyboardInterrupt}[kind]('from probe')
+    raise body_exc(kind, 'from probe')
 
   @gin.configurable('c9raiserbase', module='c9')
   def raiserbase():
@@ -74,6 +112,24 @@ def setup(ctx):
   _S['raiser'] = raiser
   _S['cons'] = cons
 
+  @gin.register('c9cls', module='c9')
+  class C9Cls:
+    """registered class with a registered method (scoped class references decorate the method with the scope as well)"""
+
+    def __init__(self, v='dflt'):
+      probes.RECORDER.rec('c9cls', {'v': v})
+
+    @gin.register
+    def meth(self, v='dflt', boom=None):
+      probes.RECORDER.rec('c9meth', {'v': v})
+      if boom:
+        raise body_exc(boom, 'from method')
+      return gin.current_scope()
+
+  _S['rawcls'] = C9Cls
+  # taken at the root scope (an unscoped get_configurable captures the scope active when it is called: not this property's business)
+  _S['ucls'] = gin.get_configurable('c9.c9cls')
+
 
 CONFIG = """
 c9f.v = 'root'
@@ -90,14 +146,28 @@ viaref/c9cons.x = @r1/r2/c9f()
 viaraise/c9cons.x = @r1/c9raiser()
 viaraisebase/c9cons.x = @r1/c9raiserbase()
 vianest/c9cons.x = @n1/n2/c9nest()
+r1v/c9raiser.kind = 'ValueError'
+viaraisevalue/c9cons.x = @r1v/c9raiser()
+viacls/c9cons.x = @k1/k2/c9cls()
+c9cls.v = 'cls-root'
+k1/c9cls.v = 'cls-k1'
+a/b/c9cls.v = 'cls-a/b'
+x/c9cls.v = 'cls-x'
+c9cls.meth.v = 'meth-root'
+a/c9cls.meth.v = 'meth-a'
+k1/k2/c9cls.meth.v = 'meth-k1/k2'
+b/c9cls.meth.v = 'meth-b'
 """
 BOUND = {'': 'root', 'a': 'a', 'a/b': 'a/b', 'b': 'b', 'x': 'x', 'x/y': 'x/y', 't0': 't0', 't1': 't1', 't2': 't2', 't3': 't3'}
+CLS_BOUND = {'': 'cls-root', 'k1': 'cls-k1', 'a/b': 'cls-a/b', 'x': 'cls-x'}
+METH_BOUND = {'': 'meth-root', 'a': 'meth-a', 'k1/k2': 'meth-k1/k2', 'b': 'meth-b'}
 
 
-def expected_v(scope):
+def expected_v(scope, table=None):
+  table = BOUND if table is None else table
   v = 'dflt'
   for i in range(len(scope) + 1):
-    v = BOUND.get('/'.join(scope[:i]), v)
+    v = table.get('/'.join(scope[:i]), v)
   return v
 
 
@@ -126,13 +196,12 @@ def gen_node(rng, depth, maxdepth):
     if k < 0.5 and depth < maxdepth:
       body.append(gen_node(rng, depth + 1, maxdepth))
     elif k < 0.85:
-      body.append(['call', rng.choice(['direct', 'scoped-get', 'scoped-ref', 'scoped-raise', 'scoped-get-raise', 'scoped-raise-base', 'scoped-get-raise-base',
-                                       'deferred-entry', 'decorator-entry'])])
+      body.append(['call', rng.choice(OLD_CALLS if rng.random() < 0.55 else NEW_CALLS)])
     else:
       body.append(['check'])
   ex = 'return'
   if rng.random() < 0.25:
-    ex = ['raise', rng.choice(['Boom', 'Boom', 'BaseBoom', 'KeyboardInterrupt'])]
+    ex = ['raise', rng.choice(['Boom', 'Boom', 'BaseBoom', 'KeyboardInterrupt', 'ValueError', 'ValueError', 'TypeError', 'IndexError'])]
   return {'arg': arg, 'body': body, 'exit': ex, 'catch': rng.random() < 0.5}
 
 
@@ -145,9 +214,10 @@ def real_arg(arg):
 class Runner:
   """Executes a program tree against gin and the scope model in lock step (one instance per thread)."""
 
-  def __init__(self, ctx, label, counter='scope_checks'):
+  def __init__(self, ctx, label, counter='scope_checks', sequential=False):
     import gin
     self.gin, self.ctx, self.label, self.counter = gin, ctx, label, counter
+    self.sequential = sequential     # True: the only running thread (may start threads / change the global configuration)
     self.m = models.ScopeModel()
     self.maxdepth = 0
     self.shape = []
@@ -162,6 +232,18 @@ class Runner:
                      (self.label, where, cur, gin.current_scope_str(), self.m.cur, self.m.stack))
       return False
     self.ctx.count('oracle_evals')
+    if not self.sequential:
+      return True       # (under the scheduler every extra gin line is a scheduling point: the next step is left to sequential runs)
+    # the list handed out is the caller's: changing it is not a scope entry or exit, so the active scope stays what it was
+    cur.append('c9mutated')
+    if cur[:-1]:
+      del cur[0]
+    again = gin.current_scope()
+    self.ctx.bucket('observe:returned-scope-list-mutated')
+    if again != self.m.cur:
+      self.ctx.check(False, 'returned-scope-list-is-live', '%s: at %s appending to / deleting from the list returned by current_scope() '
+                     'changed the active scope to %r (model %r)' % (self.label, where, again, self.m.cur))
+      return False
     return True
 
   def call(self, how):
@@ -169,6 +251,10 @@ class Runner:
     p = _S['p']
     mark = probes.RECORDER.mark()
     me = threading.current_thread().name
+    if how in SEQ_ONLY and not self.sequential:
+      how = 'direct'
+    if how in NEW_ONLY:
+      return getattr(self, 'call_' + how.split('-')[0])(how)
     if how == 'direct':
       ctx.bucket('call:direct')
       p.conf()
@@ -188,19 +274,24 @@ class Runner:
       with gin.config_scope(['viaref']):
         _S['cons']()
       exp_scope = ['r1', 'r2']
-    elif how in ('scoped-raise', 'scoped-get-raise', 'scoped-raise-base', 'scoped-get-raise-base'):
+    elif how in ('scoped-raise', 'scoped-get-raise', 'scoped-raise-base', 'scoped-get-raise-base', 'scoped-raise-value', 'scoped-get-raise-value'):
       base = how.endswith('-base')
-      ctx.bucket('call:probe-raises-BaseException-in-scoped' if base else 'call:probe-raises-in-scoped')
+      value = how.endswith('-value')     # a builtin ValueError: the class gin itself raises for an invalid scope name
+      ctx.bucket('call:probe-raises-ValueError-in-scoped' if value else
+                 'call:probe-raises-BaseException-in-scoped' if base else 'call:probe-raises-in-scoped')
       try:
         if how.startswith('scoped-raise'):
-          with gin.config_scope(['viaraisebase' if base else 'viaraise']):
+          with gin.config_scope(['viaraisevalue' if value else 'viaraisebase' if base else 'viaraise']):
             _S['cons']()
         else:
-          gin.get_configurable('q1/q2/c9raiser')(kind='KeyboardInterrupt' if base else 'Boom')
+          gin.get_configurable('q1/q2/c9raiser')(kind='ValueError' if value else 'KeyboardInterrupt' if base else 'Boom')
         ctx.check(False, 'probe-exception-swallowed', '%s: raising probe did not propagate' % self.label)
       except (Boom, BaseBoom, KeyboardInterrupt):
         pass
-      self.check_scope('after %s scoped call left by %s' % (how, 'a BaseException' if base else 'an Exception'))
+      except ValueError:
+        if not value:
+          raise
+      self.check_scope('after %s scoped call left by %s' % (how, 'a ValueError' if value else 'a BaseException' if base else 'an Exception'))
       return
     elif how == 'deferred-entry':
       # the context manager object is created under one scope and entered under another: the scope active at *entry* counts
@@ -239,12 +330,229 @@ class Runner:
               '%s: %s call under %r received v=%r expected %r' % (self.label, how, exp_scope, r.received['v'], expected_v(exp_scope)))
     self.check_scope('after %s call' % how)
 
+  # ---- extension wave: one method per family of new call kinds (NEW_ONLY maps the kind's first word to call_<word>) -------------
+
+  def call_child(self, how):
+    """A thread started by the running thread while it is inside (nested) blocks starts at the root scope, sees the root bindings,
+    nests on its own, and leaves the starter's scope alone."""
+    gin, ctx = self.gin, self.ctx
+    res = {}
+    started_in = self.m.cur
+    nblocks = len(self.m.stack) - 1
+
+    def kid():
+      try:
+        res['scope'] = gin.current_scope()
+        res['str'] = gin.current_scope_str()
+        rr = Runner(ctx, self.label + '/thread started inside %r' % ('/'.join(started_in),), counter='thread_scope_checks')
+        rr.check_scope('start of a thread started inside blocks')
+        rr.call('direct')
+        rr.run_program([{'arg': 'a', 'body': [['call', 'direct'], {'arg': 'b', 'body': [['call', 'direct']], 'exit': 'return'}, ['check']],
+                         'exit': 'return'}])
+        res['done'] = True
+      except BaseException as e:   # noqa: reported by the starter below
+        res['err'] = repr(e)
+
+    t = threading.Thread(target=kid)
+    t.start()
+    t.join(60)
+    if t.is_alive():
+      raise core.Inconclusive('child thread of a sequential case did not finish')
+    if started_in:
+      ctx.bucket('threads:child-of-running-thread-in-scope')
+      if nblocks >= 2:
+        ctx.bucket('threads:child-of-running-thread-in-nested-blocks')
+    ctx.check(res.get('scope') == [] and res.get('str') == '', 'new-thread-not-at-root-scope',
+              '%s: a thread started while its starter was inside %d block(s), active scope %r, began with scope %r / %r' %
+              (self.label, nblocks, started_in, res.get('scope'), res.get('str')))
+    ctx.check(res.get('done') and 'err' not in res, 'new-thread-failed', '%s: thread started inside scope %r failed: %s' %
+              (self.label, started_in, res.get('err')))
+    self.check_scope('after a thread started here ran and ended')
+
+  def call_api(self, how):
+    """Calls that are not scope entries or exits leave the scope stack alone, whatever else they reset."""
+    gin, ctx = self.gin, self.ctx
+    if how == 'api-clear':
+      ctx.bucket('api:clear-config-in-block')
+      gin.clear_config()
+      self.check_scope('after clear_config() inside the block')
+      load_config()
+      self.check_scope('after parse_config() inside the block')
+    else:
+      ctx.bucket('api:misc-in-block')
+      gin.bind_parameter('zz/c9f.boom', None)
+      self.check_scope('after bind_parameter() inside the block')
+      gin.query_parameter('a/c9f.v')
+      gin.parse_config("zq/c9f.boom = None\nzq/c9cons.x = @zq/c9f")
+      self.check_scope('after parse_config() inside the block')
+      with gin.unlock_config():
+        self.check_scope('inside unlock_config() inside the block')
+      gin.config_str()
+      gin.operative_config_str()
+      gin.get_bindings('c9f')
+      self.check_scope('after query_parameter / config_str / operative_config_str / get_bindings inside the block')
+    self.call('direct')
+
+  def call_gen(self, how):
+    """A generator suspended inside a config_scope block keeps the block open in the thread that runs it; close(), throw() and
+    running it to the end leave the block, and then the previous scope is back."""
+    gin, ctx = self.gin, self.ctx
+    depth = len(self.m.stack)
+    arg = ['gen', ['g1', 'g2'], 'g3/g4', None][depth % 4]
+    nested = depth % 2 == 1
+
+    def g():
+      with gin.config_scope(arg) as sc:
+        if nested:
+          with gin.config_scope('deeper'):
+            yield gin.current_scope()
+        else:
+          yield sc
+        yield gin.current_scope()
+      yield gin.current_scope()
+
+    it = g()
+    first = next(it)
+    self.m.enter(arg)
+    if nested:
+      self.m.enter('deeper')
+      ctx.bucket('gen:suspended-in-nested-block')
+    ctx.check(first == self.m.cur, 'yielded-scope-differs', '%s: generator suspended inside config_scope(%r) saw %r, model %r' %
+              (self.label, arg, first, self.m.cur))
+    self.check_scope('while a generator is suspended inside config_scope(%r)' % (arg,))
+    self.call('direct')
+    if how == 'gen-close':
+      ctx.bucket('gen:close')
+      it.close()
+    elif how == 'gen-throw':
+      ctx.bucket('gen:throw')
+      kind = ['Boom', 'ValueError', 'BaseBoom'][depth % 3]
+      try:
+        it.throw(body_exc(kind, 'thrown into the generator'))
+        ctx.check(False, 'probe-exception-swallowed', '%s: exception thrown into a generator inside config_scope did not propagate' % self.label)
+      except BODY_EXC_CLASSES as e:
+        if not is_body_exc(e):
+          raise
+    else:
+      ctx.bucket('gen:exhaust')
+      if nested:
+        second = next(it)     # left the inner block only
+        self.m.exit()
+        ctx.check(second == self.m.cur, 'scope-differs-from-model', '%s: generator that left its inner block saw %r, model %r' %
+                  (self.label, second, self.m.cur))
+        self.check_scope('generator left its inner block and is suspended in the outer one')
+        nested = False
+      else:
+        next(it)
+      third = next(it)        # now outside every block of the generator
+      self.m.exit()
+      ctx.check(third == self.m.cur, 'scope-differs-from-model', '%s: generator that left its block saw %r, model %r' %
+                (self.label, third, self.m.cur))
+      self.check_scope('generator ran out of its block')
+      it.close()
+      self.check_scope('after closing a generator that had left its block')
+      return
+    if nested:
+      self.m.exit()
+    self.m.exit()
+    self.check_scope('after a generator suspended inside config_scope(%r) was left by %s' % (arg, how[4:] + '()'))
+
+  def _one_rec(self, mark, pid, what):
+    me = threading.current_thread().name
+    recs = [r for r in probes.RECORDER.since(mark, pid) if r.thread == me]
+    if not self.ctx.check(len(recs) == 1, 'probe-run-count', '%s: %s ran %d times' % (self.label, what, len(recs))):
+      return None
+    return recs[0]
+
+  def _scoped_instance(self):
+    """An instance built through the scoped class k1/k2/c9cls (by get_configurable or by a reference): built under exactly that scope."""
+    gin, ctx = self.gin, self.ctx
+    mark = probes.RECORDER.mark()
+    via = ['get_configurable', 'reference'][len(self.m.stack) % 2]
+    if via == 'reference':
+      with gin.config_scope(['viacls']):
+        inst = _S['cons']()
+    else:
+      inst = gin.get_configurable('k1/k2/c9cls')()
+    ctx.bucket('call:scoped-class')
+    r = self._one_rec(mark, 'c9cls', 'constructor of scoped class (%s)' % via)
+    if r is not None:
+      ctx.check(list(r.scope) == ['k1', 'k2'], 'scope-seen-by-probe', '%s: constructor of k1/k2/c9cls (%s) under %r saw scope %r' %
+                (self.label, via, self.m.cur, r.scope))
+      ctx.check(r.received['v'] == expected_v(['k1', 'k2'], CLS_BOUND), 'scoped-binding-seen-by-probe',
+                '%s: constructor of k1/k2/c9cls (%s) received v=%r' % (self.label, via, r.received['v']))
+    ctx.check(isinstance(inst, _S['rawcls']), 'scoped-class-instance', '%s: k1/k2/c9cls (%s) built %r' % (self.label, via, type(inst)))
+    self.check_scope('after building an instance of a scoped class (%s)' % via)
+    return inst
+
+  def _method(self, inst, exp_scope, what, **kw):
+    ctx = self.ctx
+    mark = probes.RECORDER.mark()
+    got = inst.meth(**kw)
+    r = self._one_rec(mark, 'c9meth', what)
+    if r is not None:
+      ctx.check(list(r.scope) == exp_scope and got == exp_scope, 'scope-seen-by-method', '%s: %s saw scope %r / %r expected %r' %
+                (self.label, what, r.scope, got, exp_scope))
+      ctx.check(r.received['v'] == expected_v(exp_scope, METH_BOUND), 'scoped-binding-seen-by-method',
+                '%s: %s under %r received v=%r expected %r' % (self.label, what, exp_scope, r.received['v'], expected_v(exp_scope, METH_BOUND)))
+    self.check_scope('after %s' % what)
+
+  def call_scoped(self, how):
+    gin, ctx = self.gin, self.ctx
+    inst = self._scoped_instance()
+    if not isinstance(inst, _S['rawcls']):
+      return
+    if how == 'scoped-class':
+      # registered methods of an instance of a scoped class enter that scope (a list: it replaces) whenever they are called
+      ctx.bucket('call:scoped-class-method-under-other-scope')
+      self._method(inst, ['k1', 'k2'], 'registered method of an instance of k1/k2/c9cls')
+      with gin.config_scope('b'):
+        self.m.enter('b')
+        self._method(inst, ['k1', 'k2'], 'registered method of an instance of k1/k2/c9cls, called inside a further block')
+        self.m.exit()
+      self.check_scope('after the block around a method call')
+    else:
+      ctx.bucket('call:scoped-method-raises')
+      kind = ['ValueError', 'Boom', 'BaseBoom'][len(self.m.stack) % 3]
+      try:
+        inst.meth(boom=kind)
+        ctx.check(False, 'probe-exception-swallowed', '%s: raising method did not propagate' % self.label)
+      except BODY_EXC_CLASSES as e:
+        if not isinstance(e, BODY_EXC[kind]):
+          raise
+      self.check_scope('after a registered method of an instance of a scoped class raised %s' % kind)
+
+  def call_unscoped(self, how):
+    """The class as registered (no scope of its own): constructor and registered methods see the scope active at each call."""
+    gin, ctx = self.gin, self.ctx
+    ctx.bucket('call:unscoped-class-method')
+    mark = probes.RECORDER.mark()
+    inst = _S['ucls']()
+    r = self._one_rec(mark, 'c9cls', 'constructor of the unscoped class')
+    if r is not None:
+      ctx.check(list(r.scope) == self.m.cur, 'scope-seen-by-probe', '%s: constructor of c9cls under %r saw scope %r' %
+                (self.label, self.m.cur, r.scope))
+      ctx.check(r.received['v'] == expected_v(self.m.cur, CLS_BOUND), 'scoped-binding-seen-by-probe',
+                '%s: constructor of c9cls under %r received v=%r' % (self.label, self.m.cur, r.received['v']))
+    self._method(inst, self.m.cur, 'registered method of an unscoped instance')
+    with gin.config_scope('b'):
+      self.m.enter('b')
+      self._method(inst, self.m.cur, 'registered method of an unscoped instance built outside this block')
+      self.m.exit()
+    with gin.config_scope(['k1']):
+      self.m.enter(['k1'])
+      self._method(inst, ['k1'], 'registered method of an unscoped instance called under a list scope')
+      self.m.exit()
+    self.check_scope('after method calls under further blocks')
+
   def run_node(self, node, depth=1):
     gin, ctx = self.gin, self.ctx
     arg = real_arg(node['arg'])
     ctx.bucket(entry_bucket(arg))
     self.maxdepth = max(self.maxdepth, depth)
     valid = self.m.valid(arg)
+    if isinstance(arg, (str, list)) and any(isinstance(c, str) and '.' in c for c in (arg.split('/') if isinstance(arg, str) else arg)):
+      ctx.bucket('entry:dotted' if valid else 'entry:invalid-dotted')
     before = self.m.cur
     before_stack = [list(s) for s in self.m.stack]
     self.shape.append((entry_bucket(arg), depth))
@@ -266,20 +574,27 @@ class Runner:
                 self.check_scope('check in %r' % (arg,))
             if node['exit'] != 'return':
               kind = node['exit'][1]
-              ctx.bucket('exit:raise-' + ('Exception' if kind == 'Boom' else 'BaseException'))
-              raise {'Boom': Boom, 'BaseBoom': BaseBoom, 'KeyboardInterrupt': KeyboardInterrupt}[kind]('body')
+              ctx.bucket('exit:raise-' + ('Exception' if kind == 'Boom' else 'BaseException' if kind in ('BaseBoom', 'KeyboardInterrupt') else kind))
+              raise body_exc(kind, 'body')
             ctx.bucket('exit:return')
           finally:
             self.m.exit()
       except ValueError as e:
-        if valid or 'name_or_scope' not in str(e):
+        if is_body_exc(e):
+          raise                       # raised by a block body (here or deeper): handled below like every other body exception
+        if valid:
+          # the model was not entered: the exception came out of __enter__
+          ctx.check(False, 'valid-scope-rejected', '%s: config_scope(%r) raised %r' % (self.label, arg, e))
+        elif 'name_or_scope' not in str(e):
           raise
         ctx.count('oracle_evals')
       # whatever happened, on leaving the block the previous scope is restored exactly
       self.check_scope('after leaving %r' % (arg,))
-    except (Boom, BaseBoom, KeyboardInterrupt):
+    except BODY_EXC_CLASSES as e:
+      if not is_body_exc(e):
+        raise
       self.m.stack = before_stack
-      self.check_scope('after exception left %r' % (arg,))
+      self.check_scope('after %s left %r' % (type(e).__name__, arg))
       if not node.get('catch') and depth > 1:
         raise
     active_stack = getattr(gin.config._SCOPE_MANAGER, 'active_scopes', None)
@@ -320,11 +635,16 @@ def iter_cases(ctx, rng, n):
     yield gen_thread_case(rng)
 
 
+def load_config():
+  import gin
+  gin.parse_config(CONFIG)
+
+
 def run_seq(ctx, case):
   import gin
   gin.clear_config()
   gin.parse_config(CONFIG)
-  r = Runner(ctx, 'seq')
+  r = Runner(ctx, 'seq', sequential=True)
   r.run_program(case['prog'])
   ctx.fp('seq', tuple(r.shape))
   ctx.sample({'kind': 'seq', 'prog': case['prog']}, cap=2)
@@ -452,7 +772,7 @@ def exhaustive(ctx):
   n = 0
   for d in (1, 2, 3):
     for chain in itertools.product(range(len(alpha)), repeat=d):
-      for ex in ['return', 'Boom', 'BaseBoom']:
+      for ex in ['return', 'Boom', 'BaseBoom', 'ValueError']:
         for catch_level in (range(d) if ex != 'return' else [0]):
           n += 1
           if n % ctx.nworkers != ctx.widx:
